@@ -13,6 +13,7 @@ CONSTANTS
   CraftToks = {}
   MaxPresent = 2
   Calls = {"exchange", "payload", "readdress", "deliver"}
+  PumpPay = FALSE
   HealRounds = 0
   HealDt = 250
   Bound = 0
